@@ -579,7 +579,7 @@ class _Ops:
             return StepResult("skipped", "absent")
         if entry in ("meta_bytes", "meta_reader") and suffix_of(name) != ".mha":
             entry = "read_image"
-        if judged and entry in ("from_sitk", "FlowField.from_sitk", "Grid.from_file") and suffix_of(name) in NIFTI_FAMILY:
+        if judged and entry in ("from_sitk", "FlowField.from_sitk", "Grid.from_file", "Grid.from_sitk", "Grid.from_reader") and suffix_of(name) in NIFTI_FAMILY:
             stem = self.stem_of(name)
             others = {stem + s_ for s_ in NIFTI_FAMILY + [".hdr.gz", ".img.gz"]} - set(rec.files)
             if any(os.path.exists(self.full(o)) for o in others):
@@ -608,6 +608,16 @@ class _Ops:
                 return read_image(arg)
             if entry == "Grid.from_file":
                 return None, Grid.from_file(arg, **kw)
+            if entry == "Grid.from_sitk":
+                return None, Grid.from_sitk(sitk.ReadImage(p), **kw)
+            if entry == "Grid.from_reader":
+                rd = sitk.ImageFileReader()
+                rd.SetFileName(p)
+                rd.ReadImageInformation()
+                return None, Grid.from_reader(rd, **kw)
+            if entry == "FlowField.from_image":
+                f = FlowField.from_image(Image.read(arg, **kw), axes=Axes.WORLD)
+                return f, f.grid()
             if entry == "FlowField.read":
                 f = FlowField.read(arg, **kw)
                 return f, f.grid()
@@ -641,7 +651,7 @@ class _Ops:
             self.c["checks"]["read_with_align_corners_argument"] += 1
             if bool(grid.align_corners()) != bool(ac):
                 out.violations.append(self.viol("grid-differs", entry, name, rec, {"field": "align_corners", "want": bool(ac), "got": bool(grid.align_corners())}, f":{rec.writer}->deepali"))
-        if entry in ("FlowField.read", "FlowField.from_sitk"):
+        if entry in ("FlowField.read", "FlowField.from_sitk", "FlowField.from_image"):
             if rec.kind != "flow":
                 # any image with C == D can be read as a flow field: compare the raw components
                 data_arr = data.tensor().numpy()
@@ -659,7 +669,7 @@ class _Ops:
             out.violations += self.compare(name, rec, data.numpy(), hdr, "deepali", entry)
         if data is None:
             out.digest = "grid"
-        elif entry in ("FlowField.read", "FlowField.from_sitk"):
+        elif entry in ("FlowField.read", "FlowField.from_sitk", "FlowField.from_image"):
             out.digest = digest_bytes(data.tensor().numpy().tobytes())
         else:
             out.digest = digest_bytes(data.numpy().tobytes())
@@ -938,11 +948,12 @@ class _Gen:
             op = {"op": kind, "name": name}
             if kind == "dread":
                 rec = self.rec.get(name)
-                entries = [("Image.read", 4), ("read_image", 2), ("Grid.from_file", 1), ("Image.from_uri", 0.7)]
+                entries = [("Image.read", 4), ("read_image", 2), ("Grid.from_file", 1), ("Image.from_uri", 0.7), ("Grid.from_sitk", 0.4), ("Grid.from_reader", 0.4)]
                 entries.append(("from_sitk", 1))
                 if rec is not None and (rec.kind == "flow" or rec.desc.get("C") == rec.desc.get("D")):
                     entries.append(("FlowField.read", 5 if rec.kind == "flow" else 1))
                     entries.append(("FlowField.from_sitk", 1.5 if rec.kind == "flow" else 0.5))
+                    entries.append(("FlowField.from_image", 1.0 if rec.kind == "flow" else 0.3))
                 if suffix_of(name) == ".mha":
                     entries += [("meta_bytes", 1), ("meta_reader", 2 if sc["faults"]["short_io"] else 0.5)]
                 op["entry"] = rng.weighted(entries)
@@ -953,11 +964,11 @@ class _Gen:
                 if seen and rng.chance(0.5) and any(e == seen[0] for e, _ in entries):
                     op["entry"], op["form"] = seen
                 self.read_how[name] = (op["entry"], op["form"])
-                if op["entry"] in ("from_sitk", "FlowField.from_sitk"):
+                if op["entry"] in ("from_sitk", "FlowField.from_sitk", "Grid.from_sitk", "Grid.from_reader"):
                     op["form"] = "str"
                 if op["entry"] in ("Image.read", "Image.from_uri", "read_image", "FlowField.read") and rng.chance(0.4):
                     op["hold"] = True
-                if op["entry"] in ("Image.read", "Image.from_uri", "Grid.from_file", "FlowField.read", "from_sitk", "FlowField.from_sitk") and rng.chance(0.3):
+                if op["entry"] in ("Image.read", "Image.from_uri", "Grid.from_file", "Grid.from_sitk", "Grid.from_reader", "FlowField.read", "FlowField.from_image", "from_sitk", "FlowField.from_sitk") and rng.chance(0.3):
                     op["ac"] = bool(rng.chance(0.5))
                 if op["entry"] == "meta_reader":
                     op["chunk"] = rng.choice([1, 3, 7, 64]) if sc["faults"]["short_io"] else 1 << 20
@@ -1016,7 +1027,7 @@ class IoEngine:
             o = dict(op)
             o["entry"] = "Image.write"
             out.append(o)
-        if op.get("entry") in ("read_image", "meta_bytes", "meta_reader", "Grid.from_file", "from_sitk", "Image.from_uri"):
+        if op.get("entry") in ("read_image", "meta_bytes", "meta_reader", "Grid.from_file", "Grid.from_sitk", "Grid.from_reader", "from_sitk", "Image.from_uri"):
             o = dict(op)
             o["entry"] = "Image.read"
             out.append(o)
